@@ -105,6 +105,8 @@ struct Engine {
 	long chunk_ctr = 0;
 	size_t recv_fault_at = (size_t)-1; // absolute inq offset at which the planned transport fault fires
 	int recv_fault_kind = 0;
+	bool send_dead = false; // every write fails until the connection is closed (S_ERROR_STICKY)
+	bool est_partial = false; size_t est_hdr_got = 0; // a PDU header is being delivered piecemeal while the client waits in ESTABLISHED
 	size_t stray_left = 0; // bytes of a stray PDU (delivered in ESTABLISHED) the client has not read yet
 	bool recv_fault_more = false; // the fault is an EINTR and the rest of the answer stays readable
 	bool cut_after_queue = false;
